@@ -2,7 +2,7 @@
    sylvia-derive (GenImpMacro.bridge_fns): `Interfaces::emit_dispatch_arms` (types/interfaces.rs) and
    `MsgType::emit_ctx_dispatch_values` (types/msg_type.rs). *)
 From Coq Require Import String List Bool Arith Lia.
-Require Import SV.Model.Imp SV.Model.GenImpMacro SV.Facts.ImpFacts SV.Facts.MacroRefine.
+Require Import SV.Model.Imp SV.Model.GenImpBridge SV.Facts.ImpFacts SV.Facts.MacroRefine.
 Import ListNotations.
 Open Scope string_scope.
 Open Scope list_scope.
@@ -11,11 +11,14 @@ Definition BR : program := bridge_fns ++ [rec_stub "crate_module" []].
 
 (* an interface attached to the contract: its variant in the contract-level message and its custom(..) markers *)
 Definition customs_v (has_msg has_query : bool) : value := VRec "Customs" [("has_msg", VBool has_msg); ("has_query", VBool has_query)].
-Definition iface_v (i : value * bool * bool) : value :=
-  let '(variant, has_msg, has_query) := i in
-  VRec "ContractMessageAttr" [("module", VStr "module"); ("variant", variant); ("customs", customs_v has_msg has_query)].
+Definition iface := (value * value * bool * bool)%type.          (* module, variant, custom(msg), custom(query) *)
+Definition iface_v (i : iface) : value :=
+  let '(m, variant, has_msg, has_query) := i in
+  VRec "ContractMessageAttr" [("module", m); ("variant", variant); ("customs", customs_v has_msg has_query)].
 
-Definition run1 (k : string) (i : value * bool * bool) : option ctl :=
+Definition ifaces_v (l : list iface) : value := VRec "Interfaces" [("interfaces", VArr (map iface_v l))].
+
+Definition run1 (k : string) (i : iface) : option ctl :=
   call BR 2 200 "Interfaces::emit_dispatch_arms" [VRec "Interfaces" [("interfaces", VArr [iface_v i])]; kind_v k].
 Definition arm_text (r : option ctl) : string :=
   match r with Some (CVal (VArr [VCon "quote" [VStr t; _]])) => t | _ => "" end.
@@ -24,8 +27,8 @@ Definition ctx_text (k : string) (q : bool) : string :=
   | Some (CVal (VCon "quote" [VStr t; _])) => t | _ => "" end.
 
 (* the texts, read off the translated program by running it once *)
-Definition t_bridged : string := Eval vm_compute in arm_text (run1 "Exec" (VUnit, true, false)).
-Definition t_plain : string := Eval vm_compute in arm_text (run1 "Exec" (VUnit, false, false)).
+Definition t_bridged : string := Eval vm_compute in arm_text (run1 "Exec" (VUnit, VUnit, true, false)).
+Definition t_plain : string := Eval vm_compute in arm_text (run1 "Exec" (VUnit, VUnit, false, false)).
 Definition t_ctx : string := Eval vm_compute in ctx_text "Instantiate" false.
 Definition t_ctx3 : string := Eval vm_compute in ctx_text "Exec" true.
 Definition t_ctx2 : string := Eval vm_compute in ctx_text "Query" true.
@@ -34,8 +37,8 @@ Definition t_ctx2 : string := Eval vm_compute in ctx_text "Query" true.
    custom(msg) *)
 Definition converts_response (k : string) (has_msg : bool) : bool := ((k =? "Exec") || (k =? "Sudo")) && has_msg.
 
-Definition arm_spec (k : string) (i : value * bool * bool) : value :=
-  let '(variant, has_msg, has_query) := i in
+Definition arm_spec (k : string) (i : iface) : value :=
+  let '(_, variant, has_msg, has_query) := i in
   let ctx := VCon ".emit_ctx_dispatch_values" [kind_v k; customs_v has_msg has_query] in
   let wrapper := VCon ".emit_msg_wrapper_name" [kind_v k] in
   if converts_response k has_msg
@@ -67,8 +70,8 @@ Proof.
 Qed.
 
 (* for ANY list of interfaces: one arm per interface, in order, each as arm_spec says *)
-Theorem translated_dispatch_arms k (l : list (value * bool * bool)) : In k six_kinds ->
-  calls BR 2 "Interfaces::emit_dispatch_arms" [VRec "Interfaces" [("interfaces", VArr (map iface_v l))]; kind_v k]
+Theorem translated_dispatch_arms k (l : list iface) : In k six_kinds ->
+  calls BR 2 "Interfaces::emit_dispatch_arms" [ifaces_v l; kind_v k]
     (CVal (VArr (map (arm_spec k) l))).
 Proof.
   intros Hk.
@@ -88,8 +91,8 @@ Proof.
                  (length l) 0 en) as (enf & Hfor & Hinv) end.
     + reflexivity.
     + intros j en' Hj ->. cbn [List.tl].
-      destruct (nth_error l j) as [[[variant hm] hq]|] eqn:Hnth; [|apply nth_error_None in Hnth; lia].
-      assert (Hm : nth_error (map iface_v l) j = Some (iface_v (variant, hm, hq))) by (rewrite nth_error_map, Hnth; reflexivity).
+      destruct (nth_error l j) as [[[[m variant] hm] hq]|] eqn:Hnth; [|apply nth_error_None in Hnth; lia].
+      assert (Hm : nth_error (map iface_v l) j = Some (iface_v (m, variant, hm, hq))) by (rewrite nth_error_map, Hnth; reflexivity).
       rewrite (firstn_snoc' _ _ _ Hnth), map_app. cbn [map].
       unfold six_kinds in Hk. simpl in Hk.
       destruct Hk as [<-|[<-|[<-|[<-|[<-|[<-|[]]]]]]]; destruct hm;
@@ -110,15 +113,13 @@ Qed.
 (* The other per-interface pieces of the contract-level message (`Interfaces::emit_*` of types/interfaces.rs), for ANY list of
    attached interfaces and any kind: each is one template instance per interface, in order, mentioning THAT interface's module
    and variant and the kind's own names. *)
-Definition iface2 (i : value * value) : value :=
-  let '(m, v) := i in VRec "ContractMessageAttr" [("module", m); ("variant", v); ("customs", customs_v false false)].
-Definition ifaces_v (l : list (value * value)) : value := VRec "Interfaces" [("interfaces", VArr (map iface2 l))].
+
 
 Definition one_text (f : string) (extra : list value) : string :=
-  match call BR 2 200 f (ifaces_v [(VUnit, VUnit)] :: VUnit :: extra) with
+  match call BR 2 200 f (ifaces_v [(VUnit, VUnit, false, false)] :: VUnit :: extra) with
   | Some (CVal (VArr [VCon "quote" [VStr t; _]])) => t | _ => "" end.
 Definition inner_text (f : string) (extra : list value) (hole : string) : string :=
-  match call BR 2 200 f (ifaces_v [(VUnit, VUnit)] :: VUnit :: extra) with
+  match call BR 2 200 f (ifaces_v [(VUnit, VUnit, false, false)] :: VUnit :: extra) with
   | Some (CVal (VArr [VCon "quote" [_; VRec "holes" hs]])) =>
       match lookup hole hs with Some (VCon "quote" [VStr t; _]) => t | _ => "" end
   | _ => "" end.
@@ -136,17 +137,17 @@ Definition messages_fn (kv m : value) : value :=
 (* the message type of an interface for this kind: `<Contract as module::sv::InterfaceMessagesApi>::<accessor of the kind>` *)
 Definition iface_enum (contract m : value) : value := quote_v t_iface_enum [("contract", contract); ("module", m)].
 
-Definition attempt_spec (kv : value) (i : value * value) : value :=
-  let '(m, v) := i in quote_v t_attempt [("module", m); ("messages_fn_name", messages_fn kv m); ("variant", v)].
-Definition msgs_call_spec (kv : value) (i : value * value) : value :=
-  let '(m, _) := i in quote_v t_msgs_call [("module", m); ("messages_fn_name", messages_fn kv m)].
-Definition glue_variant_spec (kv contract : value) (i : value * value) : value :=
-  let '(m, v) := i in
+Definition attempt_spec (kv : value) (i : iface) : value :=
+  let '(m, v, _, _) := i in quote_v t_attempt [("module", m); ("messages_fn_name", messages_fn kv m); ("variant", v)].
+Definition msgs_call_spec (kv : value) (i : iface) : value :=
+  let '(m, _, _, _) := i in quote_v t_msgs_call [("module", m); ("messages_fn_name", messages_fn kv m)].
+Definition glue_variant_spec (kv contract : value) (i : iface) : value :=
+  let '(m, v, _, _) := i in
   quote_v t_glue_variant [("variant", v); ("interface_enum", iface_enum contract m); ("type_name", VCon ".as_accessor_name" [kv])].
-Definition glue_type_spec (kv contract : value) (i : value * value) : value :=
-  let '(m, _) := i in quote_v t_glue_type [("interface_enum", iface_enum contract m); ("type_name", VCon ".as_accessor_name" [kv])].
-Definition schemas_call_spec (kv contract : value) (i : value * value) : value :=
-  let '(m, _) := i in quote_v t_schemas_call [("contract", contract); ("module", m); ("type_name", VCon ".as_accessor_name" [kv])].
+Definition glue_type_spec (kv contract : value) (i : iface) : value :=
+  let '(m, _, _, _) := i in quote_v t_glue_type [("interface_enum", iface_enum contract m); ("type_name", VCon ".as_accessor_name" [kv])].
+Definition schemas_call_spec (kv contract : value) (i : iface) : value :=
+  let '(m, _, _, _) := i in quote_v t_schemas_call [("contract", contract); ("module", m); ("type_name", VCon ".as_accessor_name" [kv])].
 
 Local Ltac map_proof l spec :=
   eapply calls_intro with (c := CVal _); try reflexivity;
@@ -162,8 +163,9 @@ Local Ltac map_proof l spec :=
     | let j := fresh "j" in let en' := fresh "en'" in let Hj := fresh "Hj" in
       intros j en' Hj ->; cbn [List.tl];
       let m := fresh "m" in let v := fresh "v" in let Hnth := fresh "Hnth" in let Hm := fresh "Hm" in
-      destruct (nth_error l j) as [[m v]|] eqn:Hnth; [|apply nth_error_None in Hnth; lia];
-      assert (Hm : nth_error (map iface2 l) j = Some (iface2 (m, v))) by (rewrite nth_error_map, Hnth; reflexivity);
+      let hm := fresh "hm" in let hq := fresh "hq" in
+      destruct (nth_error l j) as [[[[m v] hm] hq]|] eqn:Hnth; [|apply nth_error_None in Hnth; lia];
+      assert (Hm : nth_error (map iface_v l) j = Some (iface_v (m, v, hm, hq))) by (rewrite nth_error_map, Hnth; reflexivity);
       rewrite (firstn_snoc' _ _ _ Hnth), map_app; cbn [map];
       eexists; eexists; split;
         [ eapply ev_block; [|reflexivity];
@@ -177,22 +179,80 @@ Local Ltac map_proof l spec :=
         | apply ev_stmts_tail; cbn [Nat.add]; rewrite firstn_all; cmp 4 ] ]
   end.
 
-Theorem translated_deserialization_attempts kv (l : list (value * value)) :
+Theorem translated_deserialization_attempts kv (l : list iface) :
   calls BR 2 "Interfaces::emit_deserialization_attempts" [ifaces_v l; kv] (CVal (VArr (map (attempt_spec kv) l))).
 Proof. map_proof l (attempt_spec kv). Qed.
 
-Theorem translated_messages_call kv (l : list (value * value)) :
+Theorem translated_messages_call kv (l : list iface) :
   calls BR 2 "Interfaces::emit_messages_call" [ifaces_v l; kv] (CVal (VArr (map (msgs_call_spec kv) l))).
 Proof. map_proof l (msgs_call_spec kv). Qed.
 
-Theorem translated_glue_variants kv contract (l : list (value * value)) :
+Theorem translated_glue_variants kv contract (l : list iface) :
   calls BR 2 "Interfaces::emit_glue_message_variants" [ifaces_v l; kv; contract] (CVal (VArr (map (glue_variant_spec kv contract) l))).
 Proof. map_proof l (glue_variant_spec kv contract). Qed.
 
-Theorem translated_glue_types kv contract (l : list (value * value)) :
+Theorem translated_glue_types kv contract (l : list iface) :
   calls BR 2 "Interfaces::emit_glue_message_types" [ifaces_v l; kv; contract] (CVal (VArr (map (glue_type_spec kv contract) l))).
 Proof. map_proof l (glue_type_spec kv contract). Qed.
 
-Theorem translated_response_schemas_calls kv contract (l : list (value * value)) :
+Theorem translated_response_schemas_calls kv contract (l : list iface) :
   calls BR 2 "Interfaces::emit_response_schemas_calls" [ifaces_v l; kv; contract] (CVal (VArr (map (schemas_call_spec kv contract) l))).
 Proof. map_proof l (schemas_call_spec kv contract). Qed.
+
+(* ------------------------------------------------------------------------------------------ *)
+(* `GlueMessage::emit` (contract/communication/wrapper_msg.rs): the contract-level message put together from the per-interface
+   pieces above and the contract's own part. *)
+Definition glue_self (params w contract : value) (k : string) (err custom : value) (l : list iface) : value :=
+  VRec "GlueMessage" [("source", VRec "ItemImpl" [("generics", VRec "Generics" [("params", params); ("where_clause", w)])]);
+                      ("contract", contract); ("msg_ty", kind_v k); ("error", VRec "ContractErrorAttr" [("error", err)]);
+                      ("custom", custom); ("interfaces", ifaces_v l)].
+
+Definition holes_of (r : value) : list (string * value) := match r with VCon "quote" [VStr _; VRec "holes" hs] => hs | _ => [] end.
+Definition own_fn (k : string) (contract : value) : value := messages_fn (kind_v k) contract.
+Definition is_quote_with (q : option value) (hs : list (string * value)) : Prop :=
+  exists t, q = Some (quote_v t hs).
+
+Local Ltac lemma_call :=
+  first [ apply translated_glue_variants | apply translated_glue_types | apply translated_messages_call
+        | (apply translated_dispatch_arms; simpl; tauto) | apply translated_deserialization_attempts
+        | apply translated_response_schemas_calls | (apply (calls_of_run _ 2 20); reflexivity) ].
+Local Ltac glue_step :=
+  first [ (eapply ev_stmts_let; [cmp 14 | reflexivity |]); cbn [app]
+        | (eapply ev_stmts_let; [eapply ev_call; [apply (evals_list_compute _ 8); intros ?gg ?fl; reflexivity | lemma_call] | reflexivity |]); cbn [app]
+        | (eapply ev_stmts_expr; [cmp 14 |]) ].
+
+Theorem translated_glue_message params w contract k err custom (l : list iface) : In k six_kinds ->
+  exists r,
+    calls BR 3 "GlueMessage::emit" [glue_self params w contract k err custom l] (CVal r) /\
+    (* the overlap assertion and the final error message see the list of EVERY attached interface, in order, then the contract's own *)
+    lookup "messages_call" (holes_of r) =
+      Some (VArr (map (msgs_call_spec (kind_v k)) l ++ [quote_v "&# messages_fn_name ()" [("messages_fn_name", own_fn k contract)]])) /\
+    lookup "variants_cnt" (holes_of r) = Some (VNat (S (length l))) /\
+    (* one variant / type / dispatch arm / deserialisation attempt per interface, as proved above *)
+    lookup "variants" (holes_of r) = Some (VArr (map (glue_variant_spec (kind_v k) contract) l)) /\
+    lookup "types" (holes_of r) = Some (VArr (map (glue_type_spec (kind_v k) contract) l)) /\
+    lookup "dispatch_arms" (holes_of r) = Some (VArr (map (arm_spec k) l)) /\
+    lookup "interfaces_deserialization_attempts" (holes_of r) = Some (VArr (map (attempt_spec (kind_v k)) l)) /\
+    (* the contract's own attempt consults the contract's own list for this kind *)
+    is_quote_with (lookup "contract_deserialization_attempt" (holes_of r))
+      [("messages_fn_name", own_fn k contract); ("contract_name", VCon ".fold_type" [VCon "StripGenerics" []; contract])] /\
+    (* the contract-level response table exists for the query kind only and is fed by every interface's table, then the contract's own *)
+    (if k =? "Query"
+     then exists rs t own, lookup "response_schemas" (holes_of r) = Some rs /\
+            lookup "response_schemas_calls" (holes_of rs) = Some (VArr (map (schemas_call_spec (kind_v k) contract) l ++ [quote_v t own]))
+     else lookup "response_schemas" (holes_of r) = Some (quote_v "" [])).
+Proof.
+  intros Hk. unfold six_kinds in Hk. simpl in Hk.
+  destruct Hk as [<-|[<-|[<-|[<-|[<-|[<-|[]]]]]]];
+    (eexists; split;
+     [ eapply calls_intro with (c := CVal _); try reflexivity;
+       simpl fn_body; cbn [app combine fn_params];
+       eapply ev_block; [|reflexivity];
+       repeat glue_step;
+       apply ev_stmts_tail; cmp 80
+     | cbn [holes_of lookup String.eqb Ascii.eqb Bool.eqb];
+       repeat split; try reflexivity;
+       try (rewrite app_length, map_length; cbn [length]; rewrite Nat.add_1_r; reflexivity);
+       try (eexists; reflexivity);
+       try (do 3 eexists; split; reflexivity) ]).
+Qed.
